@@ -108,10 +108,302 @@ def mpc_sweep(samples):
                     yield b"MPCK" + pk + b"RG" + sv8_varint(12) + b"\x01\x12\x34\x00\x00\xff\xff\x00\x01" + b"AP\x03"
 
 
+# ------------------------------------------------------------------------------------------- WavPack
+def wv_impl(f):
+    from mutagen.wavpack import WavPackInfo
+    return WavPackInfo(f)
+
+
+def wv_canon(i, data):
+    return (i.version, int(i.channels), i.sample_rate, i.bits_per_sample, fh(i.length))
+
+
+def wv_expect(l, data):
+    version, ch, rate, bits, samples = l
+    return (version, ch, rate, bits, fh(float(samples) / rate))
+
+
+def wv_block(size, samples=0xFFFFFFFF, index=0, bsamples=100, flags=(9 << 23) | 1):
+    return b"wvpk" + struct.pack("<IHBBIIIII", size, 0x407, 0, 0, samples, index, bsamples, flags, 0)
+
+
+def wv_sweep(samples):
+    for name in ("silence-44-s.wv", "no_length.wv", "dsd.wv"):
+        s = samples[name][:600]
+        yield from field_sweep(s, range(0, 32))
+        yield from truncations(s)
+    # every sample-rate index, with and without the DSD flag
+    for idx in range(16):
+        for dsd in (0, 1):
+            for mono in (0, 4):
+                yield wv_block(24, 1000, 0, 10, (idx << 23) | (dsd << 31) | mono | 1) + b"\0" * 8
+    # the block walk: block sizes that move the stream by 8 bytes, backwards into the header, or past the end
+    for size in (0, 1, 23, 24, 25, 31, 32, 56, 57, 100, 2 ** 16, 2 ** 31, 2 ** 32 - 1):
+        for nblocks in (1, 2, 3, 8):
+            blocks = b"".join(wv_block(size, 0xFFFFFFFF, 0, 7 + k) + b"\0" * max(0, min(size, 200) - 24) for k in range(nblocks))
+            yield blocks
+            yield blocks[:-5]
+            yield blocks + b"wvpk"
+        yield wv_block(size, 5, 1, 3) + b"wvpk" * 20
+    yield b"wvpk" * 64
+
+
+# ------------------------------------------------------------------------------------------- SMF
+def smf_impl(f):
+    from mutagen.smf import SMF
+    return SMF(f).info
+
+
+def smf_canon(i, data):
+    return (fh(i.length),)
+
+
+def smf_expect(l, data):
+    tickdiv, ntracks = l[0], l[1]
+    pos = 2
+    durations = []
+    for _ in range(ntracks):
+        n = l[pos]; pos += 1
+        duration = 0
+        for k in range(n):
+            deltasum, tempo = l[pos], l[pos + 1]; pos += 2
+            quarter, tpq = deltasum / float(tickdiv), tempo
+            duration += (quarter * tpq)
+        duration /= 10 ** 6
+        durations.append(duration)
+    return (fh(max(durations)),)
+
+
+def smf_varint(n):
+    out = [n & 0x7F]
+    n >>= 7
+    while n:
+        out.append(0x80 | (n & 0x7F))
+        n >>= 7
+    return bytes(reversed(out))
+
+
+def smf_file(tracks, fmt=1, ntracks=None, tickdiv=96, hdrlen=6):
+    d = b"MThd" + struct.pack(">I", hdrlen) + struct.pack(">HHH", fmt, len(tracks) if ntracks is None else ntracks, tickdiv)[:hdrlen]
+    for t in tracks:
+        d += b"MTrk" + struct.pack(">I", len(t)) + t
+    return d
+
+
+def smf_sweep(samples):
+    s = samples["sample.mid"]
+    yield from field_sweep(s[:400], range(0, 30))
+    yield from truncations(s[:400])
+    tempo = b"\x00\xff\x51\x03\x07\xa1\x20"
+    note = b"\x10\x90\x40\x40" + b"\x10\x40\x00"
+    base = [tempo + note * 3 + b"\x00\xff\x2f\x00", b"\x05\xc0\x01" + note + b"\x00\xf0\x02\x01\x02" + b"\x01\xd0\x05"]
+    for fmt in (0, 1, 2, 0xFFFF):
+        for td in (0, 1, 96, 0x7FFF, 0x8000, 0xFFFF):
+            for nt in (None, 0, 1, 3, 0xFFFF):
+                yield smf_file(base, fmt, nt, td)
+    for hl in (0, 5, 6, 7):
+        yield smf_file(base, hdrlen=hl)
+    # delta-time / length var-ints of every size class, incl. the float conversion limit (2^1024 - 2^970)
+    for bits in (0, 7, 8, 14, 28, 32, 64, 970, 1016, 1022, 1023, 1024, 1030, 2000):
+        for val in sorted({max(0, 2 ** bits - 1), 2 ** bits, 2 ** 1024 - 2 ** 970 - 1 if bits == 1024 else 1, 2 ** 1024 - 2 ** 970 if bits == 1024 else 1}):
+            v = smf_varint(val)
+            yield smf_file([v + b"\x90\x40\x40" + b"\x00\xff\x2f\x00"])
+            yield smf_file([tempo + v + b"\x90\x40\x40", b"\x01\x90\x40\x40"])
+            yield smf_file([b"\x00\xff\x51" + v + b"\x07\xa1\x20" + note])
+            yield smf_file([b"\x00\xf0" + v + note])
+            yield smf_file([b"\x00\xff\x01" + v + b"abc" + note])
+    # event bytes: running status, invalid status, truncated events at every cut
+    for ev in (b"\x00\x40\x40", b"\x00\xf1", b"\x00\xf8\x00", b"\x00\xc0", b"\x00\xd0\x01\x00\x05", b"\x00\x80", b"\x00\xff", b"\x00\xff\x51",
+               b"\x00\xff\x51\x03\x01", b"\x00\xff\x51\x04\x01\x02\x03\x04", b"\x81", b"\xff\xff\xff"):
+        for pre in (b"", note, b"\x00\xc5\x01"):
+            yield smf_file([pre + ev])
+            yield smf_file([pre + ev + note])
+    t = base[0]
+    for k in range(len(t) + 1):
+        yield smf_file([t[:k]])
+    yield smf_file([b""]) ; yield smf_file([]) ; yield smf_file([base[0]], ntracks=2) + b"XXXX\x00\x00\x00\x02ab"
+
+
+# ------------------------------------------------------------------------------------------- VComment
+def vc_impl(f):
+    from mutagen._vorbis import VComment
+    return VComment(f.getvalue())
+
+
+def vc_canon(v, data):
+    return (len(v), v._size)
+
+
+def vc_expect(l, data):
+    vendor_len, count, kept, size = l
+    return (kept, size)
+
+
+def vc_make(vendor, comments, framing=b"\x01", count=None, vlen=None):
+    d = struct.pack("<I", len(vendor) if vlen is None else vlen) + vendor
+    d += struct.pack("<I", len(comments) if count is None else count)
+    for c in comments:
+        if isinstance(c, tuple):
+            d += struct.pack("<I", c[0]) + c[1]
+        else:
+            d += struct.pack("<I", len(c)) + c
+    return d + framing
+
+
+VC_COMMENTS = [b"TITLE=x", b"artist=\xc3\xa9", b"noequals", b"=empty", b"bad\x7fkey=1", b"bad\x1fkey=1", b"\xff\xfe=2", b"k~=3", b"a}=b=c", b" =sp", b""]
+
+
+def vc_sweep(samples):
+    base = vc_make(b"vendor", VC_COMMENTS)
+    yield base
+    yield from field_sweep(base, list(range(0, 24)) + [len(base) - 1, len(base) - 2])
+    yield from truncations(base)
+    for fr in (b"", b"\x00", b"\x01", b"\x02", b"\x03", b"\xff", b"\x01junk"):
+        yield vc_make(b"v", VC_COMMENTS[:3], fr)
+    for cnt in (0, 1, 2, 3, 4, 255, 2 ** 16, 2 ** 31, 2 ** 32 - 1):
+        yield vc_make(b"v", VC_COMMENTS[:3], count=cnt)
+        yield vc_make(b"v", VC_COMMENTS[:3], count=cnt) + b"\x00" * 64
+    for vl in (0, 1, 5, 6, 7, 100, 2 ** 31, 2 ** 32 - 1):
+        yield vc_make(b"vendor", VC_COMMENTS[:2], vlen=vl)
+    for ln in (0, 1, 6, 7, 8, 100, 2 ** 31, 2 ** 32 - 1):
+        yield vc_make(b"v", [(ln, b"TITLE=x"), b"a=b"])
+    for c in range(256):
+        yield vc_make(b"v", [bytes([0x41, c]) + b"=v"])
+
+
+VC_SEEDS = [vc_make(b"Xiph.Org libVorbis I 20020717", [b"TITLE=hello", b"ARTIST=world", b"no equals sign", b"\xc3\xa4=\xff"]),
+            vc_make(b"", []), vc_make(b"v" * 300, VC_COMMENTS)]
+
+
+# ------------------------------------------------------------------------------------------- Ogg Vorbis
+def ogv_impl(f):
+    from mutagen.oggvorbis import OggVorbisInfo
+    return OggVorbisInfo(f)
+
+
+def ogv_canon(i, data):
+    return (i.channels, i.sample_rate, i.bitrate, i.serial)
+
+
+def ogv_expect(l, data):
+    return tuple(l)
+
+
+def ogg_page(packets_lacing, body, flags=2, version=0, serial=1, seq=0, pos=0, magic=b"OggS"):
+    return magic + struct.pack("<BBqIIiB", version, flags, pos, serial, seq, 0, len(packets_lacing)) + bytes(packets_lacing) + body
+
+
+def vorbis_id(channels=2, rate=44100, maxb=0, nomb=128000, minb=0, extra=b"\xb8\x01"):
+    return b"\x01vorbis" + struct.pack("<IBIiii", 0, channels, rate, maxb, nomb, minb) + extra
+
+
+def ogv_sweep(samples):
+    s = samples["empty.ogg"]
+    yield from field_sweep(s[:200], range(0, 60))
+    yield from truncations(s)
+    idp = vorbis_id()
+    for segs, body in (([len(idp)], idp), ([], b""), ([0], b""), ([255], idp + b"\0" * 300), ([255, 0], b"\0" * 255), ([10], idp[:10]), ([27], idp[:27]),
+                       ([28], idp[:28]), ([len(idp), 3], idp + b"abc"), ([len(idp)], idp[:-1])):
+        for flags in (0, 1, 2, 4, 7, 255):
+            yield ogg_page(segs, body, flags)
+            # some other stream's pages first
+            yield ogg_page([4], b"abcd", 2, serial=9) + ogg_page(segs, body, flags)
+            yield ogg_page([], b"", 2, serial=9) + ogg_page(segs, body, flags)
+    for ver in (0, 1, 255):
+        yield ogg_page([len(idp)], idp, 2, version=ver)
+    yield ogg_page([len(idp)], idp, 2, magic=b"OggX")
+    for rate in (0, 1, 2 ** 32 - 1):
+        for rates in ((0, 0, 0), (-1, -1, -1), (5, 10, 20), (20, 10, 5), (0, 10, 20), (2 ** 31 - 1, 0, -2 ** 31), (7, 0, 4)):
+            yield ogg_page([30], vorbis_id(1, rate, *rates), 2)
+    junk = ogg_page([4], b"abcd", 0, serial=9)
+    for k in (1, 2, 10, 50):
+        yield junk * k
+        yield junk * k + ogg_page([30], idp, 2)
+        yield (junk * k)[:-3]
+
+
+# ------------------------------------------------------------------------------------------- APEv2
+def ape_impl(f):
+    from mutagen.apev2 import _APEv2Data
+    return _APEv2Data(f)
+
+
+def ape_canon(a, data):
+    if a.metadata is None:
+        return ()
+    return (a.start, a.header, -1 if a.footer is None else a.footer, a.data, a.end, a.size, a.items, a.flags, int(a.is_at_start), len(a.tag))
+
+
+def ape_expect(l, data):
+    return tuple(l)
+
+
+def ape_tag(items=b"", nitems=0, header=True, size=None, fflags=None, hflags=0xA0000000):
+    sz = len(items) + 32 if size is None else size
+    hdr = b"APETAGEX" + struct.pack("<IIII", 2000, sz, nitems, hflags) + b"\0" * 8
+    ff = (0x80000000 if header else 0) if fflags is None else fflags
+    ftr = b"APETAGEX" + struct.pack("<IIII", 2000, sz, nitems, ff) + b"\0" * 8
+    return (hdr if header else b"") + items + ftr
+
+
+def ape_sweep(samples):
+    item = struct.pack("<II", 3, 0) + b"Title\0abc"
+    id3v1 = b"TAG" + b"\0" * 125
+    for name in ("oldtag.apev2", "brokentag.apev2", "145-invalid-item-count.apev2", "click.mpc"):
+        s = samples[name]
+        tail = s[-220:]
+        yield from field_sweep(tail, range(max(0, len(tail) - 32), len(tail)))
+        yield from field_sweep(s[:64], range(0, 32))
+        for k in range(0, min(len(s), 200)):
+            yield s[k:] if len(s) - k <= 8192 else s[-8192:]
+            yield s[:len(s) - k][-8192:]
+    for pre in (b"", b"x" * 10, b"x" * 100, b"x" * 200):
+        for hdr in (True, False):
+            for size in (None, 0, 1, 31, 32, 33, 45, 46, 47, 77, 78, 200, 2 ** 31, 2 ** 32 - 1):
+                for ff in (None, 0, 0x80000000, 0xFFFFFFFF):
+                    t = ape_tag(item, 1, hdr, size, ff)
+                    yield pre + t
+                    yield pre + t + id3v1
+                    yield t + pre                      # tag at the start
+    # PyMusepack brokenness: stray 24-byte header starts in front of the tag
+    for k in (1, 2, 5, 30):
+        for pre in (b"", b"y" * 7, b"y" * 24, b"y" * 100):
+            yield pre + (b"APETAGEX" + b"\0" * 16) * k + ape_tag(item, 1)
+    # Lyrics3v2 between the APEv2 tag and the ID3v1 tag, with every spelling of the 6-digit size
+    for digits in (b"000031", b"   31 ", b"+00031", b"-00031", b"3_1   ", b"0003_1", b"_00031", b"00031_", b"3__1  ", b"abcdef", b"      ", b"\x0031   ",
+                   b"999999", b"-99999", b"000000", b"00031\x0b", b"0x1f  ", b"31\x85   "):
+        lyr = b"LYRICSBEGIN" + b"IND0000200" + digits + b"LYRICS200"
+        for pre in (b"", b"z" * 50, b"z" * 300):
+            yield pre + ape_tag(item, 1) + lyr + id3v1
+            yield pre + ape_tag(item, 1, header=False) + lyr + id3v1
+    for n in range(0, 170, 7):
+        yield b"q" * n + id3v1
+        yield b"q" * n + b"APETAGEX" + b"\0" * 24 + id3v1
+    for k in range(0, 40):
+        yield (b"APETAGEX" + struct.pack("<IIII", 2000, 40, 0, 0xA0000000) + b"\0" * 8 + b"\0" * 8 + b"APETAGEX" + b"\0" * 24)[:k]
+
+
 # ------------------------------------------------------------------------------------------- registry
 LOADERS = {
     "Musepack": dict(impl=mpc_impl, canon=mpc_canon, expect=mpc_expect, sweep=mpc_sweep,
                      own=lambda n: n.endswith(".mpc") or n in ("synth0",), coq=("Parse_musepack", "musepack_load", "mpc_info_list"),
                      mirrors="musepack.MusepackInfo.__init__ (ID3v2 skip, __parse_sv8, _parse_sv8_int, __parse_stream_header, "
                              "__parse_replaygain_packet, __parse_sv467)"),
+    "WavPack": dict(impl=wv_impl, canon=wv_canon, expect=wv_expect, sweep=wv_sweep, coq=("Parse_wavpack", "wavpack_load", "wv_info_list"),
+                    own=lambda n: n.endswith(".wv") or n == "synth5",
+                    mirrors="wavpack._WavPackHeader.from_fileobj + WavPackInfo.__init__ (RATES index guard, block walk)"),
+    "SMF": dict(impl=smf_impl, canon=smf_canon, expect=smf_expect, sweep=smf_sweep, coq=("Parse_smf", "smf_load", "smf_info_list"), max_len=2048,
+                own=lambda n: n.endswith(".mid") or n == "synth2",
+                mirrors="smf._var_int, _read_track, _read_midi_length, SMF.load (IOError mapping)"),
+    "VComment": dict(impl=vc_impl, canon=vc_canon, expect=vc_expect, sweep=vc_sweep, coq=("Parse_vcomment", "vcomment_load", "vc_info_list"),
+                     own=lambda n: False, seeds=VC_SEEDS,
+                     mirrors="_vorbis.VComment.__init__(bytes) / VComment.load(errors='replace', framing=True)"),
+    "OggVorbisInfo": dict(impl=ogv_impl, canon=ogv_canon, expect=ogv_expect, sweep=ogv_sweep, coq=("Parse_ogg", "oggvorbis_info_load", "ogv_info_list"),
+                          own=lambda n: n.endswith(".ogg") or n == "synth1", allowed=("EOFError",), max_len=6000,
+                          mirrors="ogg.OggPage.__init__ + oggvorbis.OggVorbisInfo.__init__ (EOFError is mapped by OggFileType.load: "
+                                  "theorem C04_OggVorbis_total is about the mapped loader)"),
+    "APEv2Data": dict(impl=ape_impl, canon=ape_canon, expect=ape_expect, sweep=ape_sweep, coq=("Parse_apev2", "apev2data_load", "ape_data_list"),
+                      own=lambda n: n.endswith((".apev2", ".mpc", ".ape", ".wv", ".tak", ".ofr", ".ofs")) or n in ("apev2-lyricsv2.mp3", "audacious-trailing-id32-apev2.mp3"),
+                      cut="tail", max_len=6000,
+                      mirrors="apev2._APEv2Data.__init__ (__find_metadata incl. ID3v1/Lyrics3v2 detection and int(), __fill_missing, __fix_brokenness)"),
 }
